@@ -13,7 +13,7 @@ from ropt.enums import EventType, OptimizerExitCode
 from ropt.exceptions import OptimizationAborted
 from ropt.plan import Event
 from ropt.plugins.plan.base import PlanStep
-from ropt.results import FunctionResults
+from ropt.results import FunctionResults, Results
 
 if TYPE_CHECKING:
     from numpy.typing import ArrayLike
@@ -105,6 +105,8 @@ class DefaultEvaluatorStep(PlanStep):
                 source=self.id,
             )
         )
+        # If the evaluation is aborted, there are no results to report:
+        results: tuple[Results, ...] = ()
         try:
             results = ensemble_evaluator.calculate(
                 variables, compute_functions=True, compute_gradients=False
@@ -112,9 +114,10 @@ class DefaultEvaluatorStep(PlanStep):
         except OptimizationAborted as exc:
             exit_code = exc.exit_code
 
-        assert results
-        assert isinstance(results[0], FunctionResults)
-        if results[0].functions is None:
+        if any(
+            isinstance(item, FunctionResults) and item.functions is None
+            for item in results
+        ):
             exit_code = OptimizerExitCode.TOO_FEW_REALIZATIONS
 
         if metadata is not None:
